@@ -6,6 +6,7 @@ import (
 	"errors"
 	"fmt"
 	"testing"
+	"time"
 
 	"github.com/pion/interceptor"
 	"github.com/pion/rtcp"
@@ -90,6 +91,20 @@ func vfGccTable(lg *vfGccLog) {
 		}
 	}
 	lg.add(vfM{"a": "zero", "s": state(0).String(), "u": usage(0).String()})
+	// informational (no verdict): the state the real rateController applies along a usage sequence, fed the way the
+	// overuse detector feeds it (DelayStats.State is always the zero value there)
+	emitted := 0
+	rc := newRateController(time.Now, 100_000, 50_000, 200_000, func(DelayStats) { emitted++ })
+	rc.onReceivedRate(120_000)
+	prev := ""
+	for i, u := range []usage{usageNormal, usageNormal, usageOver, usageNormal, usageNormal, usageUnder, usageNormal,
+		usageOver, usageOver, usageUnder, usageNormal} {
+		before := emitted
+		rc.onDelayStats(DelayStats{Usage: u})
+		lg.add(vfM{"a": "rcstep", "i": i, "prev": prev, "u": u.String(), "state": rc.delayStats.State.String(),
+			"emitted": emitted > before, "target": vfGccInt(rc.target)})
+		prev = rc.delayStats.State.String()
+	}
 	lg.add(vfM{"a": "end"})
 }
 
